@@ -85,6 +85,7 @@ func alphaLocals(fset *token.FileSet, fd *ast.FuncDecl) {
 		return strings.Join(strings.Fields(b.String()), " ")
 	}
 	canon := map[*ast.Object]string{}
+	activeRange := map[string]int{}
 	counter := 0
 	numbered := func(o *ast.Object) {
 		if _, ok := canon[o]; !ok {
@@ -164,6 +165,7 @@ func alphaLocals(fset *token.FileSet, fd *ast.FuncDecl) {
 			}
 			return false
 		case *ast.RangeStmt:
+			var opened []string
 			ast.Inspect(x.X, walk)
 			renameUses(x.X)
 			if x.Tok == token.DEFINE {
@@ -173,7 +175,13 @@ func alphaLocals(fset *token.FileSet, fd *ast.FuncDecl) {
 						if writes[id.Obj] > 0 {
 							numbered(id.Obj)
 						} else if _, done := canon[id.Obj]; !done {
-							canon[id.Obj] = fmt.Sprintf("each#%s(%s)", []string{"k", "v"}[k], rx)
+							name := fmt.Sprintf("each#%s(%s)", []string{"k", "v"}[k], rx)
+							if d := activeRange[name]; d > 0 {
+								// a loop over the same expression inside such a loop: its variable is another one
+								name = fmt.Sprintf("each#%s%d(%s)", []string{"k", "v"}[k], d+1, rx)
+							}
+							canon[id.Obj] = name
+							opened = append(opened, fmt.Sprintf("each#%s(%s)", []string{"k", "v"}[k], rx))
 						}
 					}
 				}
@@ -184,7 +192,13 @@ func alphaLocals(fset *token.FileSet, fd *ast.FuncDecl) {
 			if x.Value != nil {
 				renameUses(x.Value)
 			}
+			for _, n := range opened {
+				activeRange[n]++
+			}
 			ast.Inspect(x.Body, walk)
+			for _, n := range opened {
+				activeRange[n]--
+			}
 			return false
 		case *ast.Ident:
 			if isLocal(x) {
